@@ -504,10 +504,7 @@ def generate(repo, failures=None):
                 raise
             owner = it.__module__.split('.')[-1]
             failures.append((owner, '%s: %s' % (it.__name__, e)))
-<<<<<<< HEAD
-=======
             # (the message quotes source text: `range(*key...` would OPEN a nested comment and break Generated.v for everyone)
->>>>>>> agent-C10f
             out.append('(* translator item %s FAILED: %s *)' % (it.__name__, str(e).replace('*)', '* )').replace('(*', '( *')))
         out.append('')
     return '\n'.join(out) + '\n'
